@@ -1705,6 +1705,50 @@ fn shape_of(n: &Node, name: &str) -> Option<Shape> {
     }
 }
 
+/// The value the getter for `name` must return for the match tree `m` of expression `n`, slot by slot, in the
+/// notation of `obs::getters::Flat::slots` (built by the same recursion as `shape_of`).
+fn value_of(n: &Node, m: &m::MNode, name: &str) -> Option<String> {
+    use m::MNode as MN;
+    shape_of(n, name)?;
+    let opt = |inner: &Node, x: &MN| -> Option<String> {
+        let v = value_of(inner, x, name)?;
+        // directly nested options collapse
+        Some(if matches!(shape_of(inner, name), Some(Shape::Opt(_))) { v } else { format!("S{}", v) })
+    };
+    match (&n.ex, m) {
+        (Ex::Ident(..), MN::Rule { .. }) | (Ex::Ident(..), MN::Builtin { .. }) | (Ex::Ident(..), MN::Leaf { .. }) => Some("#".into()),
+        (Ex::PosPred(e), MN::Pos(x)) | (Ex::Push(e), MN::Push(x)) => value_of(e, x, name),
+        (Ex::Restore(e), x) => value_of(e, x, name),
+        (Ex::Opt(e), MN::Opt(o)) => match o {
+            Some(x) => opt(e, x),
+            None => Some("N".into()),
+        },
+        (Ex::Rep(e), MN::Rep(v)) | (Ex::RepOnce(e), MN::Rep(v)) | (Ex::RepCount(e, _, _), MN::Rep(v)) => {
+            let items: Option<Vec<String>> = v.iter().map(|(_, x)| value_of(e, x, name)).collect();
+            Some(format!("[{}]", items?.join(",")))
+        }
+        (Ex::Seq(es), MN::Seq(ms)) if es.len() == ms.len() => {
+            let mut vals = vec![];
+            for (e, (_, x)) in es.iter().zip(ms.iter()) {
+                if shape_of(e, name).is_some() {
+                    vals.push(value_of(e, x, name)?);
+                }
+            }
+            Some(if vals.len() == 1 { vals.pop().unwrap() } else { format!("({})", vals.join(",")) })
+        }
+        (Ex::Choice(es), MN::Choice(idx, x)) => {
+            let mut vals = vec![];
+            for (i, e) in es.iter().enumerate() {
+                if shape_of(e, name).is_some() {
+                    vals.push(if i == *idx { opt(e, x)? } else { "N".to_string() });
+                }
+            }
+            Some(if vals.len() == 1 { vals.pop().unwrap() } else { format!("({})", vals.join(",")) })
+        }
+        _ => None,
+    }
+}
+
 /// Direct matches of `name` in the match tree of a rule body, in expression order
 /// (not descending into other rules, nothing from negative predicates).
 fn direct_matches(n: &m::MNode, g: &Grammar, name: &str, out: &mut Vec<(usize, usize)>) {
@@ -1851,6 +1895,22 @@ fn c16(ctx: &Ctx, gi: usize, ri: usize, rep: &mut Report, note: &dyn Fn(&str)) {
                     String::new(),
                 ));
                 continue;
+            }
+            // slot by slot: which alternative / optional / iteration each node sits in
+            match value_of(&g.rules[ri].body, &body, name) {
+                Some(v) => {
+                    rep.cell("slots-compared");
+                    if v != go.slots {
+                        rep.violation(case.violation(
+                            "getter-slots",
+                            format!("{}() = {}", name, v),
+                            format!("{}() = {}", name, go.slots),
+                            "# node, N / S.. Option, [..] Vec, (..) tuple".into(),
+                        ));
+                        continue;
+                    }
+                }
+                None => rep.cell("slots-not-derivable"),
             }
             // "the very node stored in r's content": the Debug renderings occur in r's rendering, in order
             let mut from = 0usize;
